@@ -84,6 +84,7 @@ func main() {
 		}
 		// pre-pass: unexported struct fields of this package that are maps wherever they are declared
 		fieldKinds := map[string][2]int{} // name -> {map declarations, other declarations}
+		chanKinds := map[string][2]int{}  // name -> {declarations as a channel, other declarations}
 		for name := range names {
 			if !strings.HasSuffix(name, ".go") || strings.HasSuffix(name, "_test.go") {
 				continue
@@ -104,7 +105,61 @@ func main() {
 			if err != nil {
 				fatal("%v", err)
 			}
+			noteChan := func(id *ast.Ident, isChan bool) {
+				if id == nil || id.Name == "_" {
+					return
+				}
+				k := chanKinds[id.Name]
+				if isChan {
+					k[0]++
+				} else {
+					k[1]++
+				}
+				chanKinds[id.Name] = k
+			}
+			isChanType := func(e ast.Expr) bool { _, ok := e.(*ast.ChanType); return ok }
+			isMakeChan := func(e ast.Expr) bool {
+				c, ok := e.(*ast.CallExpr)
+				if !ok || len(c.Args) == 0 {
+					return false
+				}
+				id, ok := c.Fun.(*ast.Ident)
+				return ok && id.Name == "make" && isChanType(c.Args[0])
+			}
 			ast.Inspect(f, func(n ast.Node) bool {
+				switch x := n.(type) {
+				case *ast.Field: // struct fields, parameters, results
+					for _, id := range x.Names {
+						noteChan(id, isChanType(x.Type))
+					}
+				case *ast.ValueSpec:
+					for i, id := range x.Names {
+						noteChan(id, (x.Type != nil && isChanType(x.Type)) || (x.Type == nil && i < len(x.Values) && isMakeChan(x.Values[i])))
+					}
+				case *ast.AssignStmt:
+					if x.Tok == token.DEFINE && len(x.Lhs) == len(x.Rhs) {
+						for i, l := range x.Lhs {
+							if id, ok := l.(*ast.Ident); ok {
+								noteChan(id, isMakeChan(x.Rhs[i]))
+							}
+						}
+					} else if x.Tok == token.DEFINE {
+						for _, l := range x.Lhs {
+							if id, ok := l.(*ast.Ident); ok {
+								noteChan(id, false)
+							}
+						}
+					}
+				case *ast.RangeStmt:
+					if x.Tok == token.DEFINE {
+						if id, ok := x.Key.(*ast.Ident); ok {
+							noteChan(id, false)
+						}
+						if id, ok := x.Value.(*ast.Ident); ok {
+							noteChan(id, false)
+						}
+					}
+				}
 				st, ok := n.(*ast.StructType)
 				if !ok || st.Fields == nil {
 					return true
@@ -134,6 +189,12 @@ func main() {
 				}
 				return true
 			})
+		}
+		chanNames = map[string]bool{}
+		for name, k := range chanKinds {
+			if k[0] > 0 && k[1] == 0 {
+				chanNames[name] = true
+			}
 		}
 		mapFields = map[string]bool{}
 		for name, k := range fieldKinds {
@@ -181,6 +242,10 @@ func main() {
 		fatal("%v", err)
 	}
 }
+
+// chanNames: names (fields, variables, parameters) that are channels in every declaration of the
+// package being rewritten; `for v := range ch` over such a name becomes an announced receive loop.
+var chanNames map[string]bool
 
 // mapFields: unexported struct fields of the package being rewritten that are maps in every
 // declaration; `for k, v := range x.f` over such a field is given a deterministic order.
@@ -319,6 +384,19 @@ func (r *rewriter) expr(e ast.Expr, recvs *[]ast.Expr) {
 		}
 		return true
 	})
+}
+
+// lastName is the identifier an operand ends in (x, a.b.x), or "".
+func lastName(e ast.Expr) string {
+	switch x := e.(type) {
+	case *ast.Ident:
+		return x.Name
+	case *ast.SelectorExpr:
+		return x.Sel.Name
+	case *ast.ParenExpr:
+		return lastName(x.X)
+	}
+	return ""
 }
 
 func pureOperand(e ast.Expr) bool {
@@ -472,6 +550,20 @@ func (r *rewriter) stmt(s ast.Stmt) []ast.Stmt {
 	case *ast.RangeStmt:
 		r.expr(x.X, nil)
 		r.block(x.Body)
+		if nm := lastName(x.X); nm != "" && chanNames[nm] && pureOperand(x.X) && x.Value == nil && (x.Tok == token.DEFINE || x.Key == nil) {
+			// for v := range ch  ->  for { vsched.Recv(ch); v, ok := <-ch; if !ok { break }; body }
+			okName := fmt.Sprintf("vschedOk%d", r.tmpN)
+			r.tmpN++
+			var lhs ast.Expr = ast.NewIdent("_")
+			if x.Key != nil {
+				lhs = x.Key
+			}
+			recv := &ast.AssignStmt{Lhs: []ast.Expr{lhs, ast.NewIdent(okName)}, Tok: token.DEFINE, Rhs: []ast.Expr{&ast.UnaryExpr{Op: token.ARROW, X: x.X}}}
+			stop := &ast.IfStmt{Cond: &ast.UnaryExpr{Op: token.NOT, X: ast.NewIdent(okName)}, Body: &ast.BlockStmt{List: []ast.Stmt{&ast.BranchStmt{Tok: token.BREAK}}}}
+			body := append([]ast.Stmt{&ast.ExprStmt{X: call("Recv", x.X)}, recv, stop}, x.Body.List...)
+			r.used, r.changed = true, true
+			return []ast.Stmt{&ast.ForStmt{Body: &ast.BlockStmt{List: body}}}
+		}
 		if se, ok := x.X.(*ast.SelectorExpr); ok && mapFields[se.Sel.Name] && pureOperand(se) && x.Tok == token.DEFINE && x.Key != nil {
 			// map iteration order is the one source of nondeterminism the scheduler cannot own at run
 			// time: iterate over the keys in sorted order instead (a key deleted meanwhile is skipped,
